@@ -46,7 +46,6 @@ func runC07(c *Ctx) {
 	}
 	type pathEval struct {
 		rp     core.RetPath
-		conds  []struct{ kind string; sign bool }
 		stores bool
 		undec  string
 	}
@@ -66,51 +65,43 @@ func runC07(c *Ctx) {
 				}
 			}
 		}
-		for _, a := range rp.Atoms {
-			n := a.Norm()
-			s := n.Cond
-			kind := ""
-			if s.Op == "const" {
-				continue // phi resolved to a constant on this path (Feasible() already pruned the contradictory sign)
-			}
-			switch {
-			case s.Op == "binop" && s.Name == "==" && s.Args[1].IsConst("nil") && isPrevious(s.Args[0], up):
-				kind = "prevNil"
-			case s.Op == "field" && s.Name == "IsDest" && isPrevious(s.Args[0], up):
-				kind = "prevDest"
-			case s.Op == "field" && s.Name == "IsDest" && s.Args[0].Op == "param":
-				kind = "replyDest"
-			default:
-				pe.undec = "branch on " + s.String() + " is outside the abstract domain (previous == nil, previous.IsDest, reply.IsDest)"
-			}
-			pe.conds = append(pe.conds, struct{ kind string; sign bool }{kind, n.Sign})
-		}
 		pes = append(pes, pe)
 	}
-	for _, pe := range pes {
-		if pe.undec != "" {
-			R.FailPath("R07.1", fn+"#update-rule/undecided", up.Pos(), fn, pe.undec, pe.rp.Path.String())
+	ev := &absEval{c: c}
+	closureObj := func(t *core.Term) string {
+		switch {
+		case isPrevious(t, up):
+			return "previous"
+		case t.Op == "param":
+			return "reply"
 		}
+		return ""
 	}
 	cases := 0
 	for _, prev := range []string{"nil", "non-dest", "dest"} {
 		for _, reply := range []string{"non-dest", "dest"} {
 			cases++
-			env := map[string]bool{"prevNil": prev == "nil", "prevDest": prev == "dest", "replyDest": reply == "dest"}
+			cs := absCase{prevNil: prev == "nil", prevDest: prev == "dest", replyDest: reply == "dest"}
 			var got []bool
 			var which []string
+			undec := ""
 			for _, pe := range pes {
 				if pe.undec != "" {
+					undec = pe.undec
 					continue
 				}
 				ok := true
-				for _, cd := range pe.conds {
-					if cd.kind == "prevDest" && prev == "nil" {
-						ok = false // previous.IsDest is never evaluated on a nil previous (would crash): path infeasible
-						// unless prevNil false precedes; handled by ordering of atoms below
-					}
-					if env[cd.kind] != cd.sign {
+				for _, a := range pe.rp.Atoms {
+					n := a.Norm()
+					v := ev.evalBool(n.Cond, closureObj, cs, 0)
+					if v == "unknown" {
+						undec = "branch on " + n.Cond.String() + " cannot be evaluated over the abstract domain (previous == nil, previous.IsDest, reply.IsDest)"
 						ok = false
+						break
+					}
+					if (v == "true") != n.Sign {
+						ok = false
+						break
 					}
 				}
 				if ok {
@@ -121,6 +112,8 @@ func runC07(c *Ctx) {
 			want := prev == "nil" || (prev == "non-dest" && reply == "dest")
 			key := fmt.Sprintf("%s#update-rule[previous=%s,reply=%s]", fn, prev, reply)
 			switch {
+			case undec != "":
+				R.Fail("R07.1", key, up.Pos(), fn, "undecided: "+undec)
 			case len(got) == 0:
 				R.Fail("R07.1", key, up.Pos(), fn, "no path of the update closure is consistent with this case: undecided")
 			default:
@@ -135,15 +128,17 @@ func runC07(c *Ctx) {
 			R.Sample(map[string]any{"case": map[string]string{"previous": prev, "reply": reply}, "reference_store": want, "closure_store": got, "paths": which})
 		}
 	}
-	// a nil previous is never dereferenced: every prevDest atom is preceded by prevNil=false
-	for _, pe := range pes {
-		seenNotNil := false
-		for _, cd := range pe.conds {
-			if cd.kind == "prevNil" && !cd.sign {
-				seenNotNil = true
-			}
-			if cd.kind == "prevDest" && !seenNotNil {
-				R.FailPath("R07.1", fn+"#nil-deref", up.Pos(), fn, "previous.IsDest is read on a path that has not established previous != nil", pe.rp.Path.String())
+	// side effects on the stored objects: the closure (and its helpers) may write nothing but the slot
+	for _, g := range ModReach(c.P, up) {
+		for _, b := range g.Blocks {
+			for _, in := range b.Instrs {
+				st, ok := in.(*ssa.Store)
+				if !ok {
+					continue
+				}
+				if fa, ok := st.Addr.(*ssa.FieldAddr); ok && isNamed(fa.X.Type(), core.ModulePath+"/common", "ProbeResponse") {
+					R.Fail("R07.1", core.FuncName(g)+"#mutates-reply["+core.FieldName(fa)+"]", st.Pos(), core.FuncName(g), "the merge rewrites the field "+core.FieldName(fa)+" of a stored reply instead of keeping or replacing the reply as a whole: a hop can end up with one reply's address and another's flags")
+				}
 			}
 		}
 	}
@@ -253,15 +248,15 @@ func runC07(c *Ctx) {
 				continue
 			}
 			gn := core.FuncName(a.Fn)
-			if a.Fn == e.Fn {
+			if g == e.Fn && a.Site != nil && a.Site.Parent() == e.Fn {
 				before, after := true, false
 				for _, sp := range spawns {
-					if !core.InstrDominates(a.Instr, sp) {
+					if !core.InstrDominates(a.Site, sp) {
 						before = false
 					}
 				}
 				for _, w := range waits {
-					if core.InstrDominates(w, a.Instr) {
+					if core.InstrDominates(w, a.Site) {
 						after = true
 					}
 				}
@@ -317,4 +312,150 @@ func allocOfSlice(c *Ctx, e *Engine) *ssa.Alloc {
 		}
 	}
 	return &ssa.Alloc{}
+}
+
+// ---- abstract evaluation over the (previous, reply) domain, through module helpers ----
+
+type absCase struct{ prevNil, prevDest, replyDest bool }
+
+type absEval struct{ c *Ctx }
+
+func b2s(b bool) string {
+	if b {
+		return "true"
+	}
+	return "false"
+}
+
+// evalBool evaluates a boolean term to "true" / "false" / "unknown"; obj names the abstract object a term denotes.
+func (ev *absEval) evalBool(t *core.Term, obj func(*core.Term) string, cs absCase, depth int) string {
+	if depth > 4 || t == nil {
+		return "unknown"
+	}
+	switch t.Op {
+	case "const":
+		if t.Name == "true" || t.Name == "false" {
+			return t.Name
+		}
+		return "unknown"
+	case "not":
+		v := ev.evalBool(t.Args[0], obj, cs, depth+1)
+		switch v {
+		case "true":
+			return "false"
+		case "false":
+			return "true"
+		}
+		return v
+	case "field":
+		if t.Name != "IsDest" {
+			return "unknown"
+		}
+		switch obj(t.Args[0]) {
+		case "previous":
+			if cs.prevNil {
+				return "unknown" // dereference of a nil previous: no well-defined value
+			}
+			return b2s(cs.prevDest)
+		case "reply":
+			return b2s(cs.replyDest)
+		}
+		return "unknown"
+	case "binop":
+		if t.Name == "==" || t.Name == "!=" {
+			var v string
+			x, y := t.Args[0], t.Args[1]
+			switch {
+			case y.IsConst("nil") || x.IsConst("nil"):
+				o := x
+				if x.IsConst("nil") {
+					o = y
+				}
+				switch obj(o) {
+				case "previous":
+					v = b2s(cs.prevNil)
+				case "reply":
+					v = "false"
+				default:
+					return "unknown"
+				}
+			default:
+				a, b := ev.evalBool(x, obj, cs, depth+1), ev.evalBool(y, obj, cs, depth+1)
+				if a == "unknown" || b == "unknown" {
+					return "unknown"
+				}
+				v = b2s(a == b)
+			}
+			if t.Name == "!=" {
+				if v == "true" {
+					return "false"
+				}
+				return "true"
+			}
+			return v
+		}
+		return "unknown"
+	case "call":
+		return ev.evalCall(t, obj, cs, depth)
+	}
+	return "unknown"
+}
+
+// evalCall evaluates a call of a bool-returning module helper by enumerating its return paths under the case.
+func (ev *absEval) evalCall(t *core.Term, obj func(*core.Term) string, cs absCase, depth int) string {
+	var f *ssa.Function
+	for _, mf := range ev.c.P.ModFuncs {
+		if shortName(mf) == t.Name && mf.Synthetic == "" {
+			f = mf
+		}
+	}
+	if f == nil || len(f.Params) != len(t.Args) {
+		return "unknown"
+	}
+	bind := map[string]string{}
+	for i, p := range f.Params {
+		bind[p.Name()] = obj(t.Args[i])
+	}
+	calleeObj := func(x *core.Term) string {
+		if x.Op == "param" {
+			return bind[x.Name]
+		}
+		return ""
+	}
+	rps, complete := core.ReturnPaths(ev.c.P, f, 2000)
+	if !complete || len(rps) == 0 {
+		return "unknown"
+	}
+	res := ""
+	for _, rp := range rps {
+		if rp.Ret.Block().Comment == "recover" || len(rp.Results) != 1 {
+			continue
+		}
+		ok := true
+		for _, a := range rp.Atoms {
+			n := a.Norm()
+			v := ev.evalBool(n.Cond, calleeObj, cs, depth+1)
+			if v == "unknown" {
+				// a nil-previous dereference guarded by an earlier atom of the same path is simply an infeasible path
+				ok = false
+				break
+			}
+			if (v == "true") != n.Sign {
+				ok = false
+				break
+			}
+		}
+		if !ok {
+			continue
+		}
+		v := ev.evalBool(rp.Results[0], calleeObj, cs, depth+1)
+		if v == "unknown" || (res != "" && res != v) {
+			return "unknown"
+		}
+		res = v
+	}
+	if res == "" {
+		return "unknown"
+	}
+	return res
 }
